@@ -929,7 +929,19 @@ impl<'p> Sem<'p> {
                     match seg {
                         SegV::Lit(l) => s.push_str(l),
                         SegV::Var(p) => {
-                            let t = match &p.schema.expr {
+                            // The type of a variable is the type of the schema it refers to.
+                            let mut expr = &p.schema.expr;
+                            for _ in 0..64 {
+                                expr = match expr {
+                                    Sv::Ref(_, inner) => &inner.0,
+                                    Sv::RecVar(id) => match self.refs.get(id).and_then(|v| v.as_ref()).or_else(|| self.rec_values.get(id)) {
+                                        Some(v) => &v.0,
+                                        None => break,
+                                    },
+                                    _ => break,
+                                };
+                            }
+                            let t = match expr {
                                 Sv::Prim(PrimV::Num { .. }) => "number",
                                 Sv::Prim(PrimV::Str { .. }) => "string",
                                 Sv::Prim(PrimV::Bool) => "boolean",
@@ -1129,8 +1141,8 @@ pub fn order_dependent(prog: &Program) -> Option<bool> {
             }
         }
     }
-    let inherited_differ = sem.inherited.values().any(|anns| anns.windows(2).any(|w| w[0] != w[1]));
-    Some(sem.x4 || inherited_differ)
+    let first_use_annotated = sem.inherited.values().any(|anns| anns.first().map_or(false, |a| !a.is_empty()));
+    Some(sem.x4 || first_use_annotated)
 }
 
 pub fn expected(prog: &Program) -> (Expected, SemFacts) {
@@ -1158,11 +1170,12 @@ pub fn expected(prog: &Program) -> (Expected, SemFacts) {
             }
         }
     }
-    // X4: a shared component must not depend on which use is evaluated first.
+    // X4 (the known finding F9): the first evaluation of a shared declaration stores, in the
+    // component, the annotations inherited at that use. Later uses only affect their own site.
     for (id, anns) in &sem.inherited {
-        if anns.windows(2).any(|w| w[0] != w[1]) {
+        if anns.first().map_or(false, |a| !a.is_empty()) {
             let _ = id;
-            return (Expected::Excluded("X4: uses of a reference declaration inherit different annotations".to_owned()), facts);
+            return (Expected::Excluded("X4: the first evaluated use of a reference declaration inherits annotations".to_owned()), facts);
         }
     }
     // Names of the implicit components.
